@@ -883,6 +883,9 @@ class ModuleVistor(NodeVisitor):
                 attr.report(f'{attr.fullName()} is both property and classmethod')
             if is_staticmethod:
                 attr.report(f'{attr.fullName()} is both property and staticmethod')
+            # The docstring of a property is the one of its function:
+            # a string that follows the definition does not document it.
+            self.builder.currentAttr = None
             raise self.SkipNode()
 
         # Check if it's a new func or exists with an overload
